@@ -342,3 +342,33 @@ theorem lcheckTrace_sound {R : Type} {cap : Nat} {f : List Nat → R} {es : List
     · cases h
 
 end Tak.Server
+
+namespace Tak.Server
+
+/-! ### without departures the layered checker is the base checker -/
+
+theorem gateOk_nil {R : Type} (s : LState (List Nat) R) (hg : s.gone = []) (e : Event) :
+    gateOk s e = true := by
+  cases e <;> simp [gateOk, hg]
+
+/-- relation between the two checkers' results -/
+def sameResult {R : Type} :
+    Except (Nat × String) (LState (List Nat) R) → Except (Nat × String) (State (List Nat) R) → Prop
+  | .ok a, .ok b => a.base = b ∧ a.gone = []
+  | .error x, .error y => x = y
+  | _, _ => False
+
+theorem lcheckTrace_noLeave {R : Type} {cap : Nat} {f : List Nat → R} (es : List Event)
+    (s : LState (List Nat) R) (n : Nat) (hg : s.gone = []) :
+    sameResult (lcheckTrace cap f s n (es.map .ev)) (checkTrace cap f s.base n es) := by
+  induction es generalizing s n with
+  | nil => simp [lcheckTrace, checkTrace, sameResult, hg]
+  | cons e es ih =>
+    simp only [List.map_cons, lcheckTrace, checkTrace, lcheckEvent, gateOk_nil s hg e, if_true]
+    cases hce : checkEvent cap f s.base e with
+    | error m => simp [sameResult]
+    | ok b =>
+      simp only
+      exact ih _ (n + 1) hg
+
+end Tak.Server
